@@ -5,4 +5,5 @@ for id in $(python3 -c "import json;print(' '.join(c['property_id'] for c in jso
   out=$(./check $id --tier ${1:-quick} 2>&1); rc=$?
   echo "$id rc=$rc $(echo "$out" | grep -E '^C[0-9]+ tier' | cut -c1-150)"
   echo "$out" | grep -E "VIOLATION|KNOWN-FINDING|HARNESS" | head -5
+  [ $rc = 2 ] && echo "$out" | tail -25
 done
